@@ -108,3 +108,53 @@ Definition exec_scales (id : Z) (right : bool) (tr : list ev) : list Z :=
 
 (* n-1, n-2, ..., 0 *)
 Definition all_scales (n : nat) : list Z := map Z.of_nat (rev (seq 0 n)).
+
+(* ------------------------------------------------------------------ executable form of finer_spec
+   (the failing-input search applies it to the grids observed on the real code; soundness
+   [finer_spec_bad = [] -> finer_spec] is proved in Proofs/MultiscaleP.v) *)
+
+Definition zr (a n : Z) : list Z := map (fun i => a + Z.of_nat i) (seq 0 (Z.to_nat n)).
+
+(* an element of l that is below (above) every element of l *)
+Fixpoint pick (keep : Q -> Q -> bool) (l : list Q) (acc : Q) : Q :=
+  match l with [] => acc | x :: r => pick keep r (if keep acc x then acc else x) end.
+Definition pick_min (l : list Q) : option Q :=
+  match l with [] => None | x :: r => Some (pick Qle_bool r x) end.
+Definition pick_max (l : list Q) : option Q :=
+  match l with [] => None | x :: r => Some (pick (fun a b => Qle_bool b a) r x) end.
+
+Section FinerB.
+  Variables ws marge sf : Z.
+  Variables rows cols : Z.
+  Variable D : Z -> Z -> option Q.
+  Variable V : Z -> Z -> Z.
+  Variables ulo uhi : Q.
+
+  Definition win_list (pr pc : Z) : list Q :=
+    flat_map (fun r => flat_map (fun c => if valid_px rows cols D V r c
+                                          then match D r c with Some q => [q] | None => [] end else [])
+                                (zr (pc - half ws) (2 * half ws + 1)))
+             (zr (pr - half ws) (2 * half ws + 1)).
+
+  Definition is_q (o : option Q) (q : Q) : bool := match o with Some x => Qeq_bool x q | None => false end.
+
+  Definition prescribed_b (pr pc : Z) (g : option Q * option Q) : bool :=
+    if valid_px rows cols D V pr pc && negb (on_border ws rows cols pr pc)
+    then match pick_min (win_list pr pc), pick_max (win_list pr pc) with
+         | Some m, Some M => is_q (fst g) (inject_Z sf * (m - inject_Z marge))
+                             && is_q (snd g) (inject_Z sf * (M + inject_Z marge))
+         | _, _ => false
+         end
+    else is_q (fst g) ulo && is_q (snd g) uhi.
+
+  (* the geometric parent first, then its two neighbours *)
+  Definition cands (o : Z) : list Z := [o / sf; o / sf - 1; o / sf + 1].
+
+  Definition pixel_ok (G : Z -> Z -> option Q * option Q) (r c : Z) : bool :=
+    existsb (fun pr => existsb (fun pc => (0 <=? pr) && (pr <? rows) && (0 <=? pc) && (pc <? cols)
+                                          && prescribed_b pr pc (G r c)) (cands c)) (cands r).
+
+  (* the pixels of the h x w finer level whose interval is not a prescribed one *)
+  Definition finer_spec_bad (h w : Z) (G : Z -> Z -> option Q * option Q) : list (Z * Z) :=
+    flat_map (fun r => flat_map (fun c => if pixel_ok G r c then [] else [(r, c)]) (zr 0 w)) (zr 0 h).
+End FinerB.
